@@ -62,6 +62,7 @@ def run(run, replay=None):
     pool = [c for c in cases if c['end'] == 'parse']
     for k, c in enumerate(rng.sample(pool, min(8, len(pool)))):
         z = copy.deepcopy(c)
+        z['canary_of'] = z['id']
         z['id'] = 'canary-%d' % k
         if k % 4 == 0:
             z['end'] = 'other:TypeError'
